@@ -216,7 +216,7 @@ def strategy(ctx):
         # ---- user identity
         def identity():
             t = draw(st.integers(1, 5))
-            return {"type": t, "rsp": draw(st.integers(0, 1)), "primary": draw(st.binary(min_size=1, max_size=12)), "secondary": draw(st.binary(min_size=1 if t == 2 else 0, max_size=8))}
+            return {"type": t, "rsp": draw(st.integers(0, 1)), "primary": draw(st.one_of(st.binary(min_size=1, max_size=12), st.binary(min_size=1, max_size=12), st.just(b""))), "secondary": draw(st.binary(min_size=1 if t == 2 else 0, max_size=8))}
 
         if "identity" in intent:
             ident, handler = identity(), draw(st.sampled_from(FAILING_HANDLERS))
